@@ -617,3 +617,36 @@ def gated_sites(ctx, entry_fn, effect, gate_accept, kinds=ALL_KINDS):
 
     visit(entry_fn)
     return out
+
+
+# ------------------------------------------------------------- T7 lock context
+def unlocked_writers(ctx, effect, owner_cls, lock):
+    """Methods of `owner_cls` that reach `effect` through direct (non-wrapped) calls, are not
+    always called under `lock`, and form the boundary where the lock should have been taken:
+    public methods, methods without callers, or methods called directly from outside the
+    owner class. Returns (violators, W) with W the set of direct reachers (for evidence)."""
+    fns = ctx.ix.functions
+    W = set()
+    changed = True
+    while changed:
+        changed = False
+        for q, f in fns.items():
+            if q in W:
+                continue
+            for s in ctx.cg.sites_in(f):
+                if effect in ctx.site_effects(s) or any(c in W for c in s.callees if s.how != "cha"):
+                    W.add(q)
+                    changed = True
+                    break
+    out = []
+    for q in sorted(W):
+        f = fns[q]
+        if f.cls is None or not ctx.ix.is_subclass(f.cls, owner_cls.qual):
+            continue
+        if ctx.is_locked_only(f, lock):
+            continue
+        callers = ctx.cg.call_sites_of(q)
+        outside = [s for s in callers if q in s.callees and (s.fn.cls is None or not ctx.ix.is_subclass(s.fn.cls, owner_cls.qual))]
+        if not f.name.startswith("_") or not callers or outside:
+            out.append((f, outside))
+    return out, W
